@@ -1,7 +1,7 @@
 (* C17: the token-level round trip.  The serializer's items, read back as the
    tokens they denote ([item_rtoken]) and fed to the tree builder model, give
    the tree back - for trees of the shape the parser produces, outside the
-   finding classes.  Uses C16 (the builder resolves what is declared) and the
+   serializer's finding classes.  Uses C16 (the builder resolves what is declared) and the
    adequacy invariant of XSerProofs (what is used is declared). *)
 From Coq Require Import List NArith Bool Lia Arith.
 From HV Require Import XmlNs.XTreeModel XmlNs.XTreeSpec XmlNs.XTreeProofs
@@ -25,6 +25,7 @@ Definition is_attr_name (q : qname) : bool :=
   match classify_raw (qual q) with KOther _ _ => true | _ => false end.
 
 Definition attr_wf (a : attr) : bool :=
+  negb (is_nil (qual (aname a))) &&
   name_wf (aname a) && fixed_wf (qprefix (aname a)) (qns (aname a)) && is_attr_name (aname a).
 
 Fixpoint nodup_keys (seen : list (bool * (str * str))) (l : list attr) : bool :=
@@ -56,12 +57,9 @@ Fixpoint node_wf (n : xnode) : bool :=
   | _ => true
   end.
 
-(* every tag the serializer writes is outside the C16 finding classes *)
+(* the raw attribute list of a written start tag *)
 Definition item_raws (decls : nsmap) (attrs : list attr) : list rawattr :=
   map decl_rawattr decls ++ map attr_rawattr attrs.
-
-Definition item_ok (i : item) : bool :=
-  match i with IStart _ decls attrs => attrs_ok (item_raws decls attrs) | _ => true end.
 
 (* --------------------------------- written declarations vs the C16 resolver *)
 
@@ -226,8 +224,9 @@ Lemma spec_attr_attr : forall hon scopes a, RELs hon scopes ->
   spec_attr scopes (attr_rawattr a) = Some a.
 Proof.
   intros hon scopes a R B W. unfold attr_wf in W. apply andb_true_iff in W. destruct W as [W W3].
-  apply andb_true_iff in W. destruct W as [W1 W2].
-  unfold spec_attr, attr_rawattr. simpl fst. simpl snd. unfold is_attr_name in W3.
+  apply andb_true_iff in W. destruct W as [W W2]. apply andb_true_iff in W. destruct W as [W0 W1].
+  apply negb_true_iff in W0.
+  unfold spec_attr, attr_rawattr. simpl fst. simpl snd. rewrite W0. unfold is_attr_name in W3.
   destruct (classify_raw (qual (aname a))) as [| |p l] eqn:C; try discriminate.
   destruct (classify_other _ _ _ C) as (P & L & _).
   pose proof (name_wf_split _ W1) as S. unfold prefix_of, local_of in *. rewrite S in P, L. simpl in P, L.
@@ -378,20 +377,18 @@ Proof. intros s f O. unfold pop, detach_top. simpl topen. rewrite O. simpl. auto
 Lemma start_tag_step : forall s hon name attrs decls,
   Live s ->
   ((tphase s = PMain /\ topen s <> []) \/ (tphase s = PStart /\ topen s = [])) ->
-  RELs hon (ctx_of (topen s)) -> forallb scope_ok (ctx_of (topen s)) = true ->
-  elem_wf name attrs = true -> attrs_ok (item_raws decls attrs) = true ->
+  RELs hon (ctx_of (topen s)) ->
+  elem_wf name attrs = true ->
   (decls = [] \/ decls = [(qprefix name, Some (qns name))]) ->
   name_bound (decls :: hon) name = true -> forallb (attr_bound (decls :: hon)) attrs = true ->
   let s' := step s (tokenize (item_rtoken (IStart name decls attrs))) in
   Live s' /\ tphase s' = PMain /\ tdoc s' = tdoc s /\ tpost s' = tpost s /\
   topen s' = mkf name attrs (qual name, item_raws decls attrs) [] :: topen s.
 Proof.
-  intros s hon name attrs decls L PH R SO EW AO DS NB AB.
+  intros s hon name attrs decls L PH R EW DS NB AB.
   unfold elem_wf in EW. apply andb_true_iff in EW. destruct EW as [EW ND].
   apply andb_true_iff in EW. destruct EW as [EW AW]. apply andb_true_iff in EW. destruct EW as [NW FW].
   pose proof (decls_wf_of name decls NW FW DS) as DW.
-  assert (SO' : forallb scope_ok (item_raws decls attrs :: ctx_of (topen s)) = true).
-  { simpl. rewrite SO, andb_true_r. unfold attrs_ok in AO. apply andb_true_iff in AO. apply AO. }
   pose proof (RELs_cons hon _ decls attrs R DW AW) as R'.
   cbn [item_rtoken tokenize]. fold (item_raws decls attrs).
   set (src := (qual name, item_raws decls attrs)).
@@ -401,9 +398,9 @@ Proof.
     as [[s1 name'] attrs'] eqn:PN.
   destruct (pn_elem_lex _ _ _ _ _ _ _ _ L W PN) as (EL & A3 & A4 & A5 & A6 & A7 & A8 & A9).
   assert (EN : name' = name).
-  { rewrite (elem_name_spec _ _ _ _ EL SO'). simpl. eapply rename_ok; eauto. }
+  { rewrite (elem_name_spec _ _ _ _ EL). simpl. eapply rename_ok; eauto. }
   assert (EA : attrs' = attrs).
-  { rewrite (elem_attrs_spec _ _ _ _ EL AO SO). simpl. eapply reattrs_ok; eauto. }
+  { rewrite (elem_attrs_spec _ _ _ _ EL). simpl. eapply reattrs_ok; eauto. }
   subst name' attrs'.
   destruct PH as [[PH O]|[PH O]]; rewrite PH.
   - destruct (topen s1) eqn:O1; [congruence|].
@@ -455,13 +452,13 @@ Definition live_at (s : tb) (f : frame) (r : list frame) : Prop :=
 Lemma node_roundtrip : forall n st ph hon items st' ph' s f r,
   node_wf n = true -> (match n with XDoctype _ _ _ => false | _ => true end) = true ->
   negb (starts_text (fkids f) && is_text n) = true ->
-  J st ph hon -> ser_node_g n st ph = (items, st', ph', false) -> forallb item_ok items = true ->
-  live_at s f r -> RELs hon (ctx_of (f :: r)) -> forallb scope_ok (ctx_of (f :: r)) = true ->
+  J st ph hon -> ser_node_g n st ph = (items, st', ph', false) ->
+  live_at s f r -> RELs hon (ctx_of (f :: r)) ->
   exists b, live_at (run_from s (toks items)) (add_kids f [b]) r /\
             tdoc (run_from s (toks items)) = tdoc s /\ tpost (run_from s (toks items)) = tpost s /\
             erase b = n /\ b_is_text b = is_text n /\ J st' ph' hon.
 Proof.
-  fix IH 1. intros n st ph hon items st' ph' s f r WF ND NT HJ SG IO (L & PH & O) R SO.
+  fix IH 1. intros n st ph hon items st' ph' s f r WF ND NT HJ SG (L & PH & O) R.
   destruct n as [name attrs kids|t|c|tg d|nm pb sy]; try discriminate ND.
   - (* element *)
     rewrite ser_node_g_elem in SG.
@@ -476,8 +473,6 @@ Proof.
     subst i2. simpl in J3.
     cbn [node_wf] in WF. apply andb_true_iff in WF. destruct WF as [WF WK].
     apply andb_true_iff in WF. destruct WF as [EW KS].
-    cbn [forallb] in IO. apply andb_true_iff in IO. destruct IO as [IO1 IO]. rewrite forallb_app in IO.
-    apply andb_true_iff in IO. destruct IO as [IOK _]. simpl in IO1.
     pose proof (start_elem_g_decls _ _ _ _ _ _ _ _ SE) as DS.
     (* start tag *)
     change (toks (IStart name decls attrs :: is ++ [IEnd name]))
@@ -485,7 +480,7 @@ Proof.
     cbn [run_from fold_left]. fold (run_from (step s (tokenize (item_rtoken (IStart name decls attrs)))) (toks (is ++ [IEnd name]))).
     destruct (start_tag_step s hon name attrs decls L) as (L1 & P1 & D1 & T1 & O1); auto.
     { left. split; auto. rewrite O. discriminate. }
-    { rewrite O. exact R. } { rewrite O. exact SO. }
+    { rewrite O. exact R. }
     set (s1 := step s (tokenize (item_rtoken (IStart name decls attrs)))) in *.
     set (f0 := mkf name attrs (qual name, item_raws decls attrs) []) in *.
     (* children *)
@@ -493,18 +488,15 @@ Proof.
     apply andb_true_iff in EWc. destruct EWc as [EWc AW]. apply andb_true_iff in EWc. destruct EWc as [NW FW].
     assert (R1 : RELs (decls :: hon) (ctx_of (f0 :: f :: r))).
     { apply RELs_cons; auto. eapply decls_wf_of; eauto. }
-    assert (SO1 : forallb scope_ok (ctx_of (f0 :: f :: r)) = true).
-    { simpl. simpl in SO. rewrite SO, andb_true_r. unfold attrs_ok in IO1. apply andb_true_iff in IO1. apply IO1. }
     assert (K : forall l st ph is st' ph' s fr,
                (fix all (l : list xnode) : bool := match l with [] => true | k :: r => node_wf k && all r end) l = true ->
                kids_shape (starts_text (fkids fr)) l = true ->
                J st ph (decls :: hon) -> ser_nodes_g l st ph = (is, st', ph', false) ->
-               forallb item_ok is = true ->
                live_at s fr (f :: r) -> fsrc fr = fsrc f0 ->
                exists bs, live_at (run_from s (toks is)) (add_kids fr bs) (f :: r) /\
                           tdoc (run_from s (toks is)) = tdoc s /\ tpost (run_from s (toks is)) = tpost s /\
                           map erase (rev bs) = l /\ J st' ph' (decls :: hon)).
-    { induction l as [|k rest IHl]; intros sa pa isx sb pb sx fr WA KSx Ja Sx IOx LA SRC.
+    { induction l as [|k rest IHl]; intros sa pa isx sb pb sx fr WA KSx Ja Sx LA SRC.
       - simpl in Sx. injection Sx as E0 E1 E2. subst isx sb pb. exists []. rewrite add_kids_nil.
         simpl. repeat split; auto; apply LA.
       - simpl in Sx. destruct (ser_node_g k sa pa) as [[[a sa1] pa1] fa] eqn:SN.
@@ -513,12 +505,10 @@ Proof.
         apply andb_true_iff in WA. destruct WA as [WA1 WA].
         cbn [kids_shape] in KSx. apply andb_true_iff in KSx. destruct KSx as [KS1 KS2].
         apply andb_true_iff in KS1. destruct KS1 as [KS1 KD].
-        rewrite forallb_app in IOx. apply andb_true_iff in IOx. destruct IOx as [IOa IOb].
         destruct LA as (LA & PA & OA).
-        destruct (IH k sa pa (decls :: hon) a sa1 pa1 sx fr (f :: r) WA1 KD KS1 Ja SN IOa (conj LA (conj PA OA)))
+        destruct (IH k sa pa (decls :: hon) a sa1 pa1 sx fr (f :: r) WA1 KD KS1 Ja SN (conj LA (conj PA OA)))
           as (bk & LB & DB & TB & EB & XB & JB).
         { unfold ctx_of in *. simpl. simpl in R1. rewrite SRC. exact R1. }
-        { unfold ctx_of in *. simpl. simpl in SO1. rewrite SRC. exact SO1. }
         destruct (IHl sa1 pa1 b sa2 pa2 (run_from sx (toks a)) (add_kids fr [bk]) WA) as (bs & LC & DC & TC & EC & JC); auto.
         { unfold add_kids. simpl fkids. simpl app.
           replace (starts_text (bk :: fkids fr)) with (is_text k)
@@ -528,7 +518,7 @@ Proof.
         split; [exact LC|]. split; [congruence|]. split; [congruence|]. split; [|exact JC].
         rewrite rev_app_distr. simpl. rewrite EB, EC. reflexivity. }
     rewrite toks_app, run_from_app. rewrite O in O1.
-    destruct (K kids st1 ph1 is st2 ph2 s1 f0 WK KS J1 SK IOK (conj L1 (conj P1 O1)) eq_refl)
+    destruct (K kids st1 ph1 is st2 ph2 s1 f0 WK KS J1 SK (conj L1 (conj P1 O1)) eq_refl)
       as (bs & (L2 & P2 & O2) & D2 & T2 & EK & J2).
     set (s2 := run_from s1 (toks is)) in *.
     (* end tag *)
@@ -569,13 +559,13 @@ Qed.
 Lemma forest_roundtrip : forall l st ph hon is st' ph' s f r,
   (fix all (l : list xnode) : bool := match l with [] => true | k :: r => node_wf k && all r end) l = true ->
   kids_shape (starts_text (fkids f)) l = true ->
-  J st ph hon -> ser_nodes_g l st ph = (is, st', ph', false) -> forallb item_ok is = true ->
-  live_at s f r -> RELs hon (ctx_of (f :: r)) -> forallb scope_ok (ctx_of (f :: r)) = true ->
+  J st ph hon -> ser_nodes_g l st ph = (is, st', ph', false) ->
+  live_at s f r -> RELs hon (ctx_of (f :: r)) ->
   exists bs, live_at (run_from s (toks is)) (add_kids f bs) r /\
              tdoc (run_from s (toks is)) = tdoc s /\ tpost (run_from s (toks is)) = tpost s /\
              map erase (rev bs) = l /\ J st' ph' hon.
 Proof.
-  induction l as [|k rest IHl]; intros sa pa hon isx sb pb sx fr r WA KSx Ja Sx IOx LA R SO.
+  induction l as [|k rest IHl]; intros sa pa hon isx sb pb sx fr r WA KSx Ja Sx LA R.
   - simpl in Sx. injection Sx as E0 E1 E2. subst isx sb pb. exists []. rewrite add_kids_nil.
     simpl. repeat split; auto; apply LA.
   - simpl in Sx. destruct (ser_node_g k sa pa) as [[[a sa1] pa1] fa] eqn:SN.
@@ -584,8 +574,7 @@ Proof.
     apply andb_true_iff in WA. destruct WA as [WA1 WA].
     cbn [kids_shape] in KSx. apply andb_true_iff in KSx. destruct KSx as [KS1 KS2].
     apply andb_true_iff in KS1. destruct KS1 as [KS1 KD].
-    rewrite forallb_app in IOx. apply andb_true_iff in IOx. destruct IOx as [IOa IOb].
-    destruct (node_roundtrip k sa pa hon a sa1 pa1 sx fr r WA1 KD KS1 Ja SN IOa LA R SO)
+    destruct (node_roundtrip k sa pa hon a sa1 pa1 sx fr r WA1 KD KS1 Ja SN LA R)
       as (bk & LB & DB & TB & EB & XB & JB).
     destruct (IHl sa1 pa1 hon b sa2 pa2 (run_from sx (toks a)) (add_kids fr [bk]) r WA) as (bs & LC & DC & TC & EC & JC); auto.
     { unfold add_kids. simpl fkids. simpl app.
@@ -701,19 +690,18 @@ Qed.
    (prolog of comments / PIs / doctype, one root element, epilog of comments /
    PIs; no adjacent text nodes; names that print and split back; xml / xmlns
    fixed; attributes are attributes with distinct expanded names) on which the
-   serializer's bookkeeping defects do not come into play ([ser_clean]) and
-   whose written tags are outside the C16 finding classes, the tokens denoted
-   by the serializer's items rebuild the same document *)
+   serializer's bookkeeping defects do not come into play ([ser_clean]), the
+   tokens denoted by the serializer's items rebuild the same document *)
 Theorem roundtrip_tokens_outside_finding : forall pre name attrs ks post,
   let kids := pre ++ XElem name attrs ks :: post in
   forallb is_prolog pre = true -> forallb is_misc post = true ->
   node_wf (XElem name attrs ks) = true ->
-  ser_clean kids = true -> forallb item_ok (ser_doc kids) = true ->
+  ser_clean kids = true ->
   reparse kids = map strip_ids kids.
 Proof.
-  intros pre name attrs ks post kids HP HM WF CL IO.
+  intros pre name attrs ks post kids HP HM WF CL.
   unfold ser_clean in CL. apply negb_true_iff in CL.
-  unfold ser_doc in IO. unfold reparse, ser_doc.
+  unfold reparse, ser_doc.
   rewrite <- (ser_nodes_g_erase kids [] []) in * by reflexivity.
   unfold kids in *. clear kids.
   rewrite ser_nodes_g_app in *. rewrite (ser_misc pre [] [] HP) in *.
@@ -721,10 +709,8 @@ Proof.
   rewrite ser_nodes_g_app in *. cbn [ser_nodes_g] in *.
   destruct (ser_node_g (XElem name attrs ks) [] []) as [[[ri st1] ph1] f1] eqn:SR.
   rewrite (ser_misc post st1 ph1 (is_misc_prolog _ HM)) in *.
-  simpl in CL. rewrite !orb_false_r in CL. subst f1. simpl in IO.
+  simpl in CL. rewrite !orb_false_r in CL. subst f1.
   rewrite !app_nil_r in *. simpl fst.
-  rewrite forallb_app in IO. apply andb_true_iff in IO. destruct IO as [_ IO].
-  rewrite forallb_app in IO. apply andb_true_iff in IO. destruct IO as [IOR _].
   (* the root, step by step *)
   rewrite ser_node_g_elem in SR.
   destruct (start_elem_g_item [] [] name attrs) as [decls DI].
@@ -739,8 +725,6 @@ Proof.
   subst i2.
   cbn [node_wf] in WF. apply andb_true_iff in WF. destruct WF as [WF WK].
   apply andb_true_iff in WF. destruct WF as [EW KS].
-  cbn [forallb] in IOR. apply andb_true_iff in IOR. destruct IOR as [IO1 IOR]. rewrite forallb_app in IOR.
-  apply andb_true_iff in IOR. destruct IOR as [IOK _]. simpl in IO1.
   pose proof (start_elem_g_decls _ _ _ _ _ _ _ _ SE) as DS.
   (* run the builder *)
   unfold parse_raw, parse_tokens, run.
@@ -754,7 +738,7 @@ Proof.
   cbn [run_from fold_left].
   fold (run_from (step s0 (tokenize (item_rtoken (IStart name decls attrs)))) (toks (is ++ [IEnd name]))).
   destruct (start_tag_step s0 [] name attrs decls LA) as (L1 & P1 & D1 & T1 & O1); auto.
-  { rewrite OA. exact I. } { rewrite OA. reflexivity. }
+  { rewrite OA. exact I. }
   set (s1 := step s0 (tokenize (item_rtoken (IStart name decls attrs)))) in *.
   set (f0 := mkf name attrs (qual name, item_raws decls attrs) []) in *.
   rewrite OA in O1.
@@ -763,10 +747,8 @@ Proof.
   assert (R1 : RELs [decls] (ctx_of [f0])).
   { assert (R0 : RELs [] []) by exact I.
     apply (RELs_cons [] [] decls attrs R0); auto. eapply decls_wf_of; eauto. }
-  assert (SO1 : forallb scope_ok (ctx_of [f0]) = true).
-  { simpl. rewrite andb_true_r. unfold attrs_ok in IO1. apply andb_true_iff in IO1. apply IO1. }
   rewrite toks_app, run_from_app.
-  destruct (forest_roundtrip ks sa pa [decls] is sb pb s1 f0 [] WK KS JA SK IOK (conj L1 (conj P1 O1)) R1 SO1)
+  destruct (forest_roundtrip ks sa pa [decls] is sb pb s1 f0 [] WK KS JA SK (conj L1 (conj P1 O1)) R1)
     as (bs & (L2 & P2 & O2) & D2 & T2 & EK & J2).
   set (s2 := run_from s1 (toks is)) in *.
   change (toks [IEnd name]) with [tokenize (item_rtoken (IEnd name))]. cbn [run_from fold_left].
@@ -797,7 +779,7 @@ Definition rt_hyps (kids : list xnode) : bool :=
   match split_root kids with
   | Some (pre, root, post) =>
     forallb is_prolog pre && forallb is_misc post && node_wf root &&
-    ser_clean kids && forallb item_ok (ser_doc kids)
+    ser_clean kids
   | None => false
   end.
 
@@ -816,7 +798,7 @@ Proof.
   intros kids H. unfold rt_hyps in H.
   destruct (split_root kids) as [[[pre root] post]|] eqn:S; [|discriminate].
   destruct (split_root_app _ _ _ _ S) as [E (nm & a & k & R)]. subst root kids.
-  apply andb_true_iff in H. destruct H as [H H5]. apply andb_true_iff in H. destruct H as [H H4].
+  apply andb_true_iff in H. destruct H as [H H4].
   apply andb_true_iff in H. destruct H as [H H3]. apply andb_true_iff in H. destruct H as [H1 H2].
   apply roundtrip_tokens_outside_finding; auto.
 Qed.
